@@ -176,6 +176,23 @@ class Oracle:
         return "O " + str(len(self.e)) + ("" if not self.e else " " + " ".join(k + "=" + v for k, v in self.e.items()))
 
 
+def _run_driver(lines):
+    """C.run_driver, retried while another builder is relinking the driver binary"""
+    import time
+
+    for attempt in range(6):
+        try:
+            return C.run_driver(lines)
+        except C.DriverError as e:
+            if "driver not built" not in str(e) or attempt == 5:
+                raise
+            time.sleep(3)
+        except OSError:
+            if attempt == 5:
+                raise
+            time.sleep(3)
+
+
 def run_oracle_requests(reqs):
     """reqs: list of (op, Oracle, tail). Returns the driver's final answers (never a `miss`)."""
     results = [None] * len(reqs)
@@ -184,7 +201,7 @@ def run_oracle_requests(reqs):
         if not pending:
             break
         lines = [f"{reqs[i][0]} {reqs[i][1].toks()} {reqs[i][2]}" for i in pending]
-        outs = C.run_driver(lines)
+        outs = _run_driver(lines)
         nxt = []
         for i, out in zip(pending, outs):
             if out.startswith("miss "):
@@ -868,7 +885,7 @@ def check_components(rng, res, thorough):
     import yaml
     from pydrex import io as I
 
-    N = 400 if not thorough else 6000
+    N = 1500 if not thorough else 20000
     # ---- csv.writer
     alpha = list("ab1 ,;|\t\"'\r\n-é") + ["\x0b", "x"]
     lines, wants = [], []
@@ -879,7 +896,7 @@ def check_components(rng, res, thorough):
         csv.writer(buf, delimiter=d, lineterminator=os.linesep).writerow(row)
         wants.append(buf.getvalue()[:-1])
         lines.append(f"scsv-csvw s{hx(d)} {len(row)} " + " ".join("s" + hx(f) for f in row))
-    for line, want, out in zip(lines, wants, C.run_driver(lines)):
+    for line, want, out in zip(lines, wants, _run_driver(lines)):
         res.evaluations += 1
         if out == "ok t" + hx(want):
             res.traces += 1
@@ -906,7 +923,7 @@ def check_components(rng, res, thorough):
             want = ("err", "csvError")
         wants.append(want)
         lines.append(f"scsv-csvr s{hx(d)} " + " ".join("s" + hx(x) for x in ls))
-    for line, want, out in zip(lines, wants, C.run_driver(lines)):
+    for line, want, out in zip(lines, wants, _run_driver(lines)):
         res.evaluations += 1
         t = out.split()
         if t[0] == "err":
@@ -951,7 +968,7 @@ def check_components(rng, res, thorough):
             want = tag
         wants.append(want)
         lines.append("scsv-yplain s" + hx(s))
-    for s, want, out in zip(texts, wants, C.run_driver(lines)):
+    for s, want, out in zip(texts, wants, _run_driver(lines)):
         res.evaluations += 1
         if out == want:
             res.traces += 1
@@ -962,7 +979,7 @@ def check_components(rng, res, thorough):
     yq = getattr(I, "_yaml_quoted", None)
     texts = [rand_text(rng, list("ab' \t#:%-[]{}\"\\,éλ~") + ["''", "\xa0"], 8) for _ in range(N)]
     lines = ["scsv-ysq s" + hx(s) for s in texts]
-    for s, out in zip(texts, C.run_driver(lines)):
+    for s, out in zip(texts, _run_driver(lines)):
         res.evaluations += 1
         q = unhx(out.split()[1][1:])
         ok = yaml.safe_load("k: " + q + "\n") == {"k": s} and (yq is None or yq(s) == q)
@@ -975,7 +992,7 @@ def check_components(rng, res, thorough):
     res.count("component:yaml.single_quoted", N)
     # scanner direction: arbitrary text after `k: '`
     texts = [rand_text(rng, list("ab' \t#:é"), 8) for _ in range(N)]
-    for s, out in zip(texts, C.run_driver(["scsv-yscan s" + hx("'" + s) for s in texts])):
+    for s, out in zip(texts, _run_driver(["scsv-yscan s" + hx("'" + s) for s in texts])):
         res.evaluations += 1
         t = out.split()
         if t[0] != "ok" or t[2] != "s":
@@ -994,7 +1011,7 @@ def check_components(rng, res, thorough):
     texts = [rand_text(rng, pool, 6) for _ in range(N * 2)] + ["", " 12 ", "1_0", "+5", "-0", "1__0", "_1", "1_", "0005", "- 5", "١٢", "²"]
     pb = getattr(I, "_parse_scsv_bool", None)
     lines = ["scsv-str s" + hx(s) for s in texts]
-    for s, out in zip(texts, C.run_driver(lines)):
+    for s, out in zip(texts, _run_driver(lines)):
         res.evaluations += 1
         ascii_latin = all(ord(ch) < 0x100 or ch.isspace() for ch in s)
         try:
@@ -1023,7 +1040,7 @@ def check_components(rng, res, thorough):
             res.mismatch("str.strip/isidentifier/int()/_parse_scsv_bool/printable/namedtuple", s, want, got)
     res.count("component:str", len(texts))
     # ---- character classes over the whole code space
-    out = C.run_driver(["scsv-charclasses 0 1114112"])[0].split()
+    out = _run_driver(["scsv-charclasses 0 1114112"])[0].split()
     iw, istart, icont = out.index("W"), out.index("S"), out.index("C")
     W = [int(x) for x in out[iw + 1:istart]]
     S0 = [int(x) for x in out[istart + 1:icont]]
@@ -1043,7 +1060,7 @@ def check_components(rng, res, thorough):
         res.mismatch("XID_Continue table (<0x100)", "0..255", [n for n in range(0x100) if ("a" + chr(n)).isidentifier()], C0)
     # ---- str(int)
     ints = [gen_int(rng) for _ in range(N)] + [0, -1, 10, -10, 10**30, -(10**30)]
-    for i, out in zip(ints, C.run_driver([f"scsv-strint {i}" for i in ints])):
+    for i, out in zip(ints, _run_driver([f"scsv-strint {i}" for i in ints])):
         res.evaluations += 1
         if out == "ok s" + hx(str(i)):
             res.traces += 1
@@ -1051,7 +1068,7 @@ def check_components(rng, res, thorough):
             res.mismatch("str(int)", i, str(i), out)
     # ---- text-mode line iteration with universal newlines
     texts = [rand_text(rng, list("ab\n\r-,"), 12) for _ in range(N)]
-    for s, out in zip(texts, C.run_driver(["scsv-lines s" + hx(s) for s in texts])):
+    for s, out in zip(texts, _run_driver(["scsv-lines s" + hx(s) for s in texts])):
         res.evaluations += 1
         want = list(_pyio.TextIOWrapper(_pyio.BytesIO(s.encode()), encoding="utf-8", newline=None))
         t = out.split()
@@ -1080,7 +1097,7 @@ def check_components(rng, res, thorough):
             want = "err " + _classify(e)
         wants.append(want)
         lines.append("scsv-validate " + schema_toks(s))
-    for line, want, out in zip(lines, wants, C.run_driver(lines)):
+    for line, want, out in zip(lines, wants, _run_driver(lines)):
         res.evaluations += 1
         res.count("component:validate:" + want)
         if out == want:
@@ -1167,12 +1184,12 @@ def run(ctx, res):
                 "(>= 1 row written through the four layers)")
     try:
         # ---- valid stream
-        n_valid = 140 if not thorough else 1500
+        n_valid = 600 if not thorough else 9000
         cases = []
         for k in range(n_valid):
             s, d = gen_valid(rng, thorough, numpy_cols=(k % 7 == 3))
             cases.append(Case("valid", "roundtrip:valid_stream", s, d, "roundtrip"))
-        big = [300, 1000] if not thorough else [1000, 3000, 10000, 10000]
+        big = [300, 1000, 2500] if not thorough else [1000, 3000, 10000, 10000, 10000, 7777]
         for nr in big:
             s, d = gen_valid(rng, thorough, nrows=nr, numpy_cols=(nr == 1000))
             cases.append(Case("valid", "roundtrip:valid_stream", s, d, "roundtrip"))
@@ -1197,10 +1214,10 @@ def run(ctx, res):
         validate_external_spec(res, cases)
         for c in cases[:3]:
             res.sample({"stream": "valid", **summarise(c.schema, c.data), "bytes_written": len(c.real_save[1]) if c.real_save[0] == "ok" else None})
-        read_fault_cases(rng, cases[: (60 if not thorough else 600)], res)
+        read_fault_cases(rng, cases[: (250 if not thorough else 3000)], res)
         # ---- hypothesis replays
         hcases = []
-        for _ in range(2 if not thorough else 25):
+        for _ in range(5 if not thorough else 60):
             for key, s, d in hypothesis_cases(rng):
                 hcases.append(Case("hypothesis", key, s, d, "roundtrip"))
                 res.count("hypothesis:" + key)
@@ -1209,7 +1226,7 @@ def run(ctx, res):
         res.sample({"stream": "hypothesis", "keys": sorted({c.key for c in hcases})})
         # ---- single faults
         fcases = []
-        for _ in range(8 if not thorough else 120):
+        for _ in range(30 if not thorough else 400):
             for key, s, d in fault_cases(rng, thorough):
                 fcases.append(Case("fault", "fault:" + key, s, d, "scsv"))
                 res.count("fault:" + key)
@@ -1217,7 +1234,7 @@ def run(ctx, res):
         process(fcases, res, "fault")
         # ---- exotic
         ecases = []
-        for _ in range(1 if not thorough else 12):
+        for _ in range(4 if not thorough else 40):
             for key, s, d in exotic_cases(rng):
                 ecases.append(Case("exotic", key, s, d, None))
                 res.count("exotic:" + key)
